@@ -56,6 +56,10 @@ def streams(ctx):
         out.append([F(1, b"", mask=b"\x81\x01\x58\x00", form=form), F(1, b"X", mask=b"abcd"), F(2, b"\x00")])
         out.append([F(9, b"", mask=b"\x8a\x00\x82\x00", form=form), F(2, b"yz", fin=0, form=form), F(0, b"", fin=1, mask=b"\x00\x00\x00\x01", form=form)])
     out.append([F(1, rx.payload(rnd, 40000, "utf8"), fin=0), F(9, b"p"), F(0, rx.payload(rnd, 66000, "utf8")), F(2, b"after")])
+    # a payload that trickles in over MANY reads (schedules() delivers it byte by byte and interrupts it after 60..130 reads
+    # of the same request): whatever bookkeeping the reader does per read, the bytes taken so far survive the timeout
+    out.append([F(2, rx.payload(rnd, 200, "bin")), F(1, b"after")])
+    out.append([F(1, rx.payload(rnd, 180, "utf8"), mask=b"\x11\x22\x33\x44"), F(9, b"p"), F(2, b"\x00\x01")])
     return out
 
 
@@ -83,6 +87,12 @@ def schedules(ctx, stream, rnd):
                 if (p1 + p2) % 3 and n > 24:
                     continue
                 scheds.append([("chunk", stream[:p1]), ("timeout",), ("chunk", stream[p1:p2]), ("timeout",), ("chunk", stream[p2:])])
+    if 150 <= n <= 400:
+        # byte-wise delivery of the first frame's payload, ONE timeout after k reads of that payload, the rest in one piece
+        for k in (60, 63, 64, 65, 66, 70, 100, 130):
+            for mult in (1, 2):
+                cutp = 8 + k      # (past the header / extended length / mask key of either stream: inside the payload)
+                scheds.append([("chunk", stream[i:i + 1]) for i in range(cutp)] + [("timeout",)] * mult + [("chunk", stream[cutp:])])
     if n > 60000:
         for pos in (1, 2, 5, 9, 10, 11, 1000, 16384 + 10, 40000, n // 2, 65536, 65540, n - 7, n - 1):
             if 0 < pos < n:
